@@ -220,7 +220,16 @@ impl Options {
 		for i in 0..self.columns.len() {
 			metadata.push(format!("col{}={}", i, self.columns[i].as_string()));
 		}
-		try_io!(std::fs::write(path, metadata.join("\n")));
+		// Write to a temporary file first: a crash must never leave a partially written metadata file.
+		let mut tmp_path = path.to_path_buf();
+		tmp_path.set_extension("tmp");
+		{
+			use std::io::Write;
+			let mut file = try_io!(std::fs::File::create(&tmp_path));
+			try_io!(file.write_all(metadata.join("\n").as_bytes()));
+			try_io!(file.sync_all());
+		}
+		try_io!(std::fs::rename(&tmp_path, path));
 		Ok(())
 	}
 
